@@ -17,6 +17,13 @@ import tempfile
 
 from harness.drivers.common import read_payload, emit
 
+def loop_src(name, e, k, indent='', self_=False):
+    """a Loop-e function: 4 + e body lines, distinct bytecode length per e"""
+    ls = ['def %s(%sn):' % (name, 'self, ' if self_ else ''), '    s = 0', '    for i in range(n):', '        s += i']
+    ls += ['    s += %d' % k] * e + ['    return s']
+    return ''.join(indent + l + '\n' for l in ls)
+
+
 MOD_A = '''\
 # module a of the C20 universe
 def a0(n):
@@ -47,7 +54,14 @@ class KA:
         s += 5
         s += 5
         return s
+def one(n): return n - 3
+lam2 = lambda n: n // 2
 '''
+
+# two vendored copies of one helper file: value-equal code objects (same name, same line,
+# same body) that differ only in co_filename, both bound in ONE module
+VENDORED = '# vendored helper\n' + '#\n' * 130 + loop_src('norm', 11, 11)
+MOD_W = 'from c20v_a.textutil import norm as norm_a\nfrom c20v_b.textutil import norm as norm_b\n'
 
 MOD_B = '''\
 # module b of the C20 universe
@@ -109,13 +123,6 @@ class KB:
         return s
 '''
 
-def loop_src(name, e, k, indent='', self_=False):
-    """a Loop-e function: 4 + e body lines, distinct bytecode length per e"""
-    ls = ['def %s(%sn):' % (name, 'self, ' if self_ else ''), '    s = 0', '    for i in range(n):', '        s += i']
-    ls += ['    s += %d' % k] * e + ['    return s']
-    return ''.join(indent + l + '\n' for l in ls)
-
-
 # a package whose __init__ has its own functions and a sub-module with different ones:
 # `-m c20pkg.sub` must profile sub's functions, `-m c20pkg` the package's
 PKG_INIT = '# package of the C20 universe\n' + '#\n' * 70 + loop_src('pinit', 8, 8) + 'def pw(n):\n    r = pinit(n)\n    return r\n'
@@ -151,12 +158,18 @@ def x_kbd():
     raise KeyboardInterrupt
 def x_err():
     raise ValueError("c20")
+def sq(n): return n * n
+lam = lambda n: n + 1
+import c20m_w
 '''
 
-# function id -> (expression reaching the function object, number of body lines)
+# function id -> (expression reaching the function object, number of lines in the hits vector[, offset of
+# its first line from co_firstlineno: 1 = the line after `def` (default), 0 = the header line itself])
 UNIVERSE = {
     0: ('c0', 4), 1: ('c1', 5), 2: ('c2', 6), 3: ('w0', 2), 4: ('x_exit', 1), 5: ('x_kbd', 1), 6: ('x_err', 1),
-    10: ('c20m_a.a0', 7), 11: ('c20m_a.a1', 8), 12: ('c20m_a.KA.am', 9),
+    7: ('sq', 1, 0), 8: ('lam', 1, 0),
+    10: ('c20m_a.a0', 7), 11: ('c20m_a.a1', 8), 12: ('c20m_a.KA.am', 9), 13: ('c20m_a.one', 1, 0), 14: ('c20m_a.lam2', 1, 0),
+    40: ('c20m_w.norm_a', 15), 41: ('c20m_w.norm_b', 15),
     20: ('c20m_b.b0', 10), 21: ('c20m_b.wb', 2), 22: ('c20m_b.KB.bm', 11),
     30: ('c20pkg.pinit', 12), 31: ('c20pkg.pw', 2), 32: ('c20pkg.sub.ps0', 13), 33: ('c20pkg.sub.KS.pm', 14),
 }
@@ -177,6 +190,13 @@ def main():
         f.write(MOD_A)
     with open(os.path.join(root, 'c20m_b.py'), 'w') as f:
         f.write(MOD_B)
+    for v in ('c20v_a', 'c20v_b'):
+        os.makedirs(os.path.join(root, v))
+        open(os.path.join(root, v, '__init__.py'), 'w').close()
+        with open(os.path.join(root, v, 'textutil.py'), 'w') as f:
+            f.write(VENDORED)
+    with open(os.path.join(root, 'c20m_w.py'), 'w') as f:
+        f.write(MOD_W)
     os.makedirs(os.path.join(root, 'c20pkg'))
     with open(os.path.join(root, 'c20pkg', '__init__.py'), 'w') as f:
         f.write(PKG_INIT)
@@ -198,7 +218,7 @@ def main():
         p = builtins.__dict__.get('profile')
         grabbed.append((p, getattr(p, 'enable_count', -1)))
     ip.user_ns['_c20_grab'] = _c20_grab
-    funcs = {fid: eval(expr, ip.user_ns) for fid, (expr, _n) in UNIVERSE.items()}
+    funcs = {fid: eval(u[0], ip.user_ns) for fid, u in UNIVERSE.items()}
     by_code = {}
     for fid, fo in funcs.items():
         c = fo.__code__
@@ -211,12 +231,13 @@ def main():
         for key, rows in p.get_stats().timings.items():
             fid = by_code.get(tuple(key), -1)
             n = UNIVERSE[fid][1] if fid in UNIVERSE else 0
+            first = UNIVERSE[fid][2] if fid in UNIVERSE and len(UNIVERSE[fid]) > 2 else 1
             vec = [0] * n
             extra = 0
             for (line, hits, _t) in rows:
                 off = line - key[1]
-                if 1 <= off <= n:
-                    vec[off - 1] = hits
+                if first <= off < first + n:
+                    vec[off - first] = hits
                 else:
                     extra += 1
             res.append([fid if not extra else -1, vec])
